@@ -49,13 +49,30 @@ def gen_span_query(rng):
     return spans.SpanCondition(term(), term()) if hasattr(spans, "SpanCondition") else spans.SpanFirst(term())
 
 
-def one_query(ctx, rng, built, s, witness_base, mode="c11"):
+def gen_extra_query(rng):
+    """Matcher classes the plain generator does not reach: coordinated Or (CoordMatcher), column queries."""
+    from whoosh import query
+    from vf import model
+    r = rng.random()
+    if r < 0.6:
+        return query.Or([model.gen_leaf(rng, scoring=True) for _ in range(rng.randint(2, 4))], scale=rng.choice([0.3, 0.5, 0.9]))
+    from whoosh.query.qcolumns import ColumnQuery
+    if rng.random() < 0.5:
+        return ColumnQuery("n", rng.randint(-3, 3))
+    return ColumnQuery("k", rng.choice(model.KVOCAB))
+
+
+def one_query(ctx, rng, built, s, witness_base, mode="c11", q=None, expected=None):
     from vf import model, monitors
     from whoosh import query
     P = mode
     kind = rng.random()
-    if kind < 0.12:
+    if q is not None:
+        pass
+    elif kind < 0.12:
         q = gen_span_query(rng)
+    elif kind < 0.18 and witness_base.get("sortable"):
+        q = gen_extra_query(rng)
     else:
         q = model.gen_query(rng, depth=rng.choice([1, 2, 2, 3]), scoring=True)
     scored = True if mode == "c12" else rng.random() < 0.6
@@ -85,7 +102,7 @@ def one_query(ctx, rng, built, s, witness_base, mode="c11"):
     # cross-check the reference ids against the independent model (top level only: ids are global there)
     if level == "top":
         try:
-            exp = model.expected_keys(q, built.live)
+            exp = expected if expected is not None else model.expected_keys(q, built.live)
         except model.Undecided:
             exp = None
         except Exception:  # noqa - span queries etc. have no model
@@ -141,21 +158,99 @@ def one_query(ctx, rng, built, s, witness_base, mode="c11"):
                  sample=w if (ctx.evaluations % 400 == 0) else None)
 
 
+def vector_cursors(ctx, rng, built, s, wb):
+    """Term-vector matchers (byte ids = terms) obey the same cursor protocol."""
+    from vf import monitors
+    r = s.reader()
+    if not s.schema["t"].vector:
+        return
+    docnums = list(r.all_doc_ids())
+    rng.shuffle(docnums)
+    for dn in docnums[:3]:
+        if not r.has_vector(dn, "t"):
+            continue
+        w = dict(wb, vector_of_doc=dn)
+
+        def body():
+            def make():
+                return r.vector(dn, "t")
+            ref = []
+            m = make()
+            while m.is_active():
+                ref.append((m.id(), m.weight(), m.value()))
+                m.next()
+            ids = [e[0] for e in ref]
+            if ids != sorted(set(ids)):
+                ctx.fail("c11.vector", "ids-not-increasing", w, repr(ids[:10]))
+                return
+            if list(make().all_ids()) != ids:
+                ctx.fail("c11.vector", "all_ids", w, repr(ids[:10]))
+            for _ in range(3):
+                m = make()
+                i = 0
+                for _ in range(rng.randint(2, 8)):
+                    if i >= len(ref):
+                        break
+                    op = rng.choice(["next", "skip_to", "skip_to", "copy", "reset"])
+                    if op == "next":
+                        m.next()
+                        i += 1
+                    elif op == "skip_to":
+                        t = rng.choice(ids)
+                        if rng.random() < 0.3:
+                            t = t + (b"\x00" if isinstance(t, bytes) else u"\x00")
+                        m.skip_to(t)
+                        while i < len(ref) and ref[i][0] < t:
+                            i += 1
+                    elif op == "copy":
+                        c = m.copy()
+                        if m.is_active():
+                            m.next()
+                        m = c
+                    else:
+                        m.reset()
+                        i = 0
+                    ctx.count("c11.vector_checks")
+                    act = m.is_active()
+                    if act != (i < len(ref)):
+                        ctx.fail("c11.vector", "%s:is_active" % op, w, "cursor %d of %d" % (i, len(ref)))
+                        return
+                    if act and (m.id(), m.weight(), m.value()) != ref[i]:
+                        ctx.fail("c11.vector", "%s:entry" % op, w, "%r expected %r" % ((m.id(), m.weight()), ref[i][:2]))
+                        return
+        ctx.guard("c11.vector", w, body)
+
+
 def run(ctx):
     from vf import model
     model.check_analysis()
     for idx in ctx.cases(quick=60, thorough=500):
         rng = ctx.rng(idx)
         ctx.reseed_global(idx)
-        h = model.gen_history(rng, ndocs=(1, 45), boosts=True)
+        nested = rng.random() < 0.15
+        h = model.gen_group_history(rng) if nested else model.gen_history(rng, ndocs=(1, 45), boosts=True)
+        sortable = rng.random() < 0.3
         wb = {"history": {"commits": [len(c) for c in h["commits"]], "deletes": len(h["deletes"]),
-                          "blocklimit": h["blocklimit"], "storage": h["storage"]}, "case_idx": idx}
-        ok, built = ctx.guard("c11.build", wb, model.build, h, field_boosts=rng.random() < 0.5, chars=rng.random() < 0.5)
+                          "blocklimit": h["blocklimit"], "storage": h["storage"]}, "case_idx": idx, "sortable": sortable,
+              "grouped": nested}
+        ok, built = ctx.guard("c11.build", wb, model.build, h, field_boosts=rng.random() < 0.5, chars=rng.random() < 0.5,
+                              vector=rng.random() < 0.3, sortable=sortable)
         if not ok:
             continue
         try:
             with built.ix.searcher() as s:
                 for _ in range(12):
-                    one_query(ctx, rng, built, s, wb)
+                    if nested and rng.random() < 0.7:
+                        from whoosh import query
+                        nq = model.gen_nested_query(rng)
+                        exp = model.nested_expected(nq, h, built.live)
+                        if rng.random() < 0.3:
+                            t = query.Term("t", model.zipf_choice(rng, model.VOCAB))
+                            nq, exp = query.And([nq, t]), exp & model.expected_keys(t, built.live)
+                        ctx.count("c11.nested_queries")
+                        one_query(ctx, rng, built, s, wb, q=nq, expected=exp)
+                    else:
+                        one_query(ctx, rng, built, s, wb)
+                vector_cursors(ctx, rng, built, s, wb)
         finally:
             built.close()
